@@ -129,6 +129,7 @@ func canon(s []span) ([]span, error) {
 				}
 				if len(this.max.pre) == 0 {
 					maxPlusOne := this.max.copy()
+					maxPlusOne.fill(0) // The successor of the bound 1 is 1.0.1, not 2.
 					err := maxPlusOne.inc()
 					if err != nil {
 						return nil, err
